@@ -1,2 +1,144 @@
-(* Props/C10pl.v -- in progress *)
+(* Props/C10pl.v -- property C10, connection-level clause: the handler that reads the payload of a
+   PUBLISH receives exactly the bytes sent, in order, for every fragmentation and every reader pace.
+   Statements only; the model is Model/Payload.v (ntex_mqtt::Payload over ntex-util's bstream channel,
+   fed the way the dispatchers feed it).
+
+   Vocabulary.  [run m first size ops]: the payload Payload::from_stream(first, size) -- [first] is the
+   piece of the payload that came with the PUBLISH header, [size] is max_payload_buffer_size -- and its
+   reader in mode [m] after the operations [ops]:
+     Feed d      the dispatcher got Decoded::PayloadChunk(d, _) and called feed_data(d)
+     FeedEof     .. the chunk was the final one: feed_eof()
+     SetError e  drop_payload(e): set_error(e)
+     Poll        the handler's task is polled once.  m = MAll: the handler awaits `read_all()`;
+                 m = MLoop: it calls `read()` until that answers Ok(None) / Err, one Poll is one poll
+                 of the current `read()`
+     Take        the handler moves the payload out with Payload::take and goes on with what it took.
+   ANY list of operations is a schedule: chunk sizes, the number of chunks, the position of the
+   polls (the pace of the reader) and of the eof are arbitrary.
+   [rd s]: where the reader is; [Done None] = finished Ok, [Done (Some e)] = finished with Err(e).
+   [got s]: what the handler holds -- MAll: [[r]] once read_all returned Ok(r); MLoop: the chunks the
+   read() calls returned, oldest first ([held s] = their concatenation).
+   [fed_chunks first ops] = the first piece (if not empty) and the argument of every Feed of [ops], in
+   order; [fed_bytes first ops] = their concatenation = the bytes sent.
+   [eof_fed ops] = a FeedEof occurs in [ops]. *)
 From MV Require Import Base.Prelude Base.Res Model.Payload Proofs.PayloadProofs.
+
+(* every schedule runs: no panic (`len - data.len()` in bstream's get_data never underflows), the
+   model's fuel for read_all's loop always suffices *)
+Theorem C10pl_total : forall (m : mode) (first : bytes) (size : N) (ops : list op),
+  exists s, run m first size ops = Ok s.
+Proof. exact total. Qed.
+Print Assumptions C10pl_total.
+
+(* read_all: when it returns Ok(r), it does so at one definite poll, the eof had been fed before that
+   poll, and r is the concatenation of ALL chunks fed before that poll, in order -- none lost, none
+   duplicated, wherever the polls fell *)
+Theorem C10pl_read_all_exact : forall (first : bytes) (size : N) (ops : list op) (s : st),
+  run MAll first size ops = Ok s -> rd s = Done None ->
+  exists pre post, ops = pre ++ Poll :: post /\ eof_fed pre = true /\ got s = [fed_bytes first pre].
+Proof. exact read_all_exact. Qed.
+Print Assumptions C10pl_read_all_exact.
+
+(* the dispatchers give the sender away with the final chunk, so nothing is fed after the eof
+   ([feeds_end_at_eof]): then the result is every byte of the whole schedule *)
+Theorem C10pl_read_all_exact_dispatcher : forall (first : bytes) (size : N) (ops : list op) (s : st),
+  feeds_end_at_eof ops = true -> run MAll first size ops = Ok s -> rd s = Done None ->
+  got s = [fed_bytes first ops].
+Proof. exact read_all_exact_dispatcher. Qed.
+Print Assumptions C10pl_read_all_exact_dispatcher.
+
+(* .. in particular when the last chunk and the eof were fed before the reader's first poll, or
+   between any two polls: with the eof in, no error set and read_all unfinished, ONE poll finishes it
+   with every byte fed; only a payload into which nothing at all was put answers Err(Consumed) *)
+Theorem C10pl_read_all_completes : forall (first : bytes) (size : N) (ops : list op) (s : st),
+  run MAll first size ops = Ok s -> eof_fed ops = true -> existsb is_set_error ops = false ->
+  running (rd s) = true ->
+  exists s', step s Poll = Ok s' /\
+             ((rd s' = Done None /\ got s' = [fed_bytes first ops]) \/
+              (rd s' = Done (Some E_CONSUMED) /\ fed_chunks first ops = [])).
+Proof. exact read_all_completes. Qed.
+Print Assumptions C10pl_read_all_completes.
+
+(* read() loop: at every moment the chunks returned so far are a prefix of the chunks fed (same
+   chunks, same order, same boundaries); when read() answers Ok(None) the eof had been fed and the
+   handler holds every chunk fed before that poll *)
+Theorem C10pl_read_loop_exact : forall (first : bytes) (size : N) (ops : list op) (s : st),
+  run MLoop first size ops = Ok s ->
+  (exists rest, got s ++ rest = fed_chunks first ops) /\
+  (rd s = Done None ->
+   exists pre post, ops = pre ++ Poll :: post /\ eof_fed pre = true /\ got s = fed_chunks first pre).
+Proof. exact read_loop_exact. Qed.
+Print Assumptions C10pl_read_loop_exact.
+
+(* the same in bytes *)
+Theorem C10pl_read_loop_bytes : forall (first : bytes) (size : N) (ops : list op) (s : st),
+  run MLoop first size ops = Ok s ->
+  (exists rest, held s ++ rest = fed_bytes first ops) /\
+  (rd s = Done None ->
+   exists pre post, ops = pre ++ Poll :: post /\ eof_fed pre = true /\ held s = fed_bytes first pre).
+Proof. exact read_loop_bytes. Qed.
+Print Assumptions C10pl_read_loop_bytes.
+
+(* and it makes progress: while a fed chunk has not been returned, a poll returns exactly the next one *)
+Theorem C10pl_read_loop_next : forall (first : bytes) (size : N) (ops : list op) (s : st) (d : bytes)
+                                      (rest : list bytes),
+  run MLoop first size ops = Ok s -> running (rd s) = true ->
+  fed_chunks first ops = got s ++ d :: rest ->
+  exists s', step s Poll = Ok s' /\ got s' = got s ++ [d] /\ rd s' = LoopIdle.
+Proof. exact read_loop_next. Qed.
+Print Assumptions C10pl_read_loop_next.
+
+(* after set_error(e) with the reader unfinished, the reader never finishes Ok: whatever follows it is
+   either still unfinished (a read() loop that has not come to the end of the buffered chunks) or
+   finished with Err of an error set since; read_all finishes (with that Err) at its next poll *)
+Theorem C10pl_error_observed : forall (m : mode) (first : bytes) (size : N) (pre : list op) (e : N)
+                                      (post : list op) (s0 s : st),
+  run m first size pre = Ok s0 -> running (rd s0) = true ->
+  run m first size (pre ++ SetError e :: post) = Ok s ->
+  (running (rd s) = true \/ exists e', rd s = Done (Some e') /\ In (SetError e') (SetError e :: post)) /\
+  (m = MAll -> existsb is_poll post = true -> running (rd s) = false).
+Proof. exact error_observed. Qed.
+Print Assumptions C10pl_error_observed.
+
+(* neither reader finishes Ok before feed_eof *)
+Theorem C10pl_no_finish_before_eof : forall (m : mode) (first : bytes) (size : N) (ops : list op) (s : st),
+  run m first size ops = Ok s -> rd s = Done None -> eof_fed ops = true.
+Proof. exact no_finish_before_eof. Qed.
+Print Assumptions C10pl_no_finish_before_eof.
+
+(* no lost wake-up: whenever the reader is suspended in a read()/read_all() future and a poll would
+   make progress (a chunk, the eof or an error is there), its waker has been woken *)
+Theorem C10pl_no_lost_wake : forall (m : mode) (first : bytes) (size : N) (ops : list op) (s : st) (c : chan),
+  run m first size ops = Ok s -> chan_of s = Some c -> borrowed (rd s) = true ->
+  can_progress c = true -> woken s = true.
+Proof. exact no_lost_wake. Qed.
+Print Assumptions C10pl_no_lost_wake.
+
+(* a PUBLISH whose payload came whole: Payload::from_bytes(buf).  Whatever the schedule (the sender
+   operations do nothing, there is no sender): read_all returns Ok(buf) at its first poll; the read()
+   loop gets buf at its first poll and Ok(None) at the second; never an error *)
+Theorem C10pl_fixed_exact : forall (m : mode) (buf : bytes) (ops : list op),
+  exists s, run_from (init_fixed m buf) ops = Ok s /\ md s = m /\
+            match polls ops, m with
+            | O, _ => got s = [] /\ rd s = start_of m
+            | S O, MLoop => got s = [buf] /\ rd s = LoopIdle
+            | _, _ => got s = [buf] /\ rd s = Done None
+            end.
+Proof. exact fixed_exact. Qed.
+Print Assumptions C10pl_fixed_exact.
+
+(* non-vacuity: (1) the last chunk and the eof arrive before read_all's first poll; (2) the reader is
+   polled between the chunks, is suspended, woken by the next chunk, and finishes after the eof;
+   (3) a read() loop interleaved with feeding; (4) an error after two chunks: the loop still gets the
+   buffered chunks, then Err *)
+Example C10pl_nonvacuous :
+  (exists s, run MAll [1; 2] 8 [Feed [3]; Feed [4; 5]; FeedEof; Poll] = Ok s /\
+             rd s = Done None /\ got s = [[1; 2; 3; 4; 5]]) /\
+  (exists s, run MAll [1; 2] 8 [Poll; Feed [3]] = Ok s /\ rd s = AllLoop [1; 2] /\ woken s = true) /\
+  (exists s, run MAll [1; 2] 8 [Poll; Feed [3]; Poll; Feed [4; 5]; FeedEof; Poll] = Ok s /\
+             rd s = Done None /\ got s = [[1; 2; 3; 4; 5]]) /\
+  (exists s, run MLoop [] 0 [Poll; Feed [1]; Poll; Feed [2; 3]; Feed [4]; Poll; FeedEof; Poll; Poll] = Ok s /\
+             rd s = Done None /\ got s = [[1]; [2; 3]; [4]]) /\
+  (exists s, run MLoop [1] 8 [Feed [2]; SetError E_DISCONNECTED; Poll; Poll; Poll] = Ok s /\
+             rd s = Done (Some E_DISCONNECTED) /\ got s = [[1]; [2]]).
+Proof. repeat split; eexists; vm_compute; repeat split. Qed.
